@@ -5,7 +5,7 @@ import CM.Model.Issue
 namespace CM.Drv.C01
 open CM.Wire CM.Issue
 
-inductive Item | ev (e : Ev) | fin (p : Nat) (ok : Bool) | problem | begin (p : Nat) | torn
+inductive Item | ev (e : Ev) | fin (p : Nat) (ok : Bool) | problem | begin (p : Nat) | torn (p : Nat)
 
 def parseItem (s : String) : Option Item :=
   match s.splitOn ":" with
@@ -24,7 +24,7 @@ def parseItem (s : String) : Option Item :=
   | ["fin", p, o] => p.toNat?.map (fun p => .fin p (o = "ok"))
   | ["PROBLEM"] => some .problem
   | ["begin", p] => p.toNat?.map (fun p => .begin p)
-  | ["TORN"] => some .torn
+  | ["TORN", p] => p.toNat?.map (fun p => .torn p)
   | _ => none
 
 def parseKind (s : String) : Option (Kind × Bool) :=
@@ -51,7 +51,7 @@ def replay (due : Ver → Bool) : St → List Item → Nat → Except String St
     if s.pc p = .done ok then replay due s r (i + 1) else .error s!"fin-mismatch@{i}"
   | _, .problem :: _, i => .error s!"untranslatable@{i}"
   | s, .begin _ :: r, i => replay due s r (i + 1)
-  | _, .torn :: _, _ => .error "*"
+  | _, .torn _ :: _, _ => .error "*"
 
 /-- executable specification on the implementation's history alone (no model state):
 issuer calls never overlap; after a complete save of a fresh bundle nobody asks the issuer
@@ -66,6 +66,10 @@ def specTrace : List Item → Option Nat → Bool → List Nat → List Nat → 
   | .ev (.pre p) :: r, inIssue, fresh, active, exempt =>
     -- after its (last) pre-check a request is waiting for the lock, no longer reading
     specTrace r inIssue fresh (active.erase p) exempt
+  | .torn p :: r, inIssue, fresh, active, exempt =>
+    -- its read of the three-key bundle overlapped another request's save: in flight, whatever
+    -- the order of the linearisation points chosen for the two
+    specTrace r inIssue fresh active (p :: exempt)
   | .ev (.issueBegin p) :: r, inIssue, fresh, active, exempt =>
     if inIssue.isSome then "bad:overlapping-issuance"
     else if fresh then "bad:issuance-after-fresh-save"
@@ -77,8 +81,85 @@ def specTrace : List Item → Option Nat → Bool → List Nat → List Nat → 
     else specTrace r inIssue fresh (active.erase p) exempt
   | _ :: r, inIssue, fresh, active, exempt => specTrace r inIssue fresh active exempt
 
+/-! ### OS-process rig (`proc`): issuer intervals, kills and results of K real processes -/
+
+inductive PItem
+  | ib (i : Nat) | ie (i : Nat) (ok : Bool) | kill (i : Nat) | fin (i : Nat) (ok : Bool) (h : String)
+  | stored (h : String) | hang
+
+def parsePItem (s : String) : Option PItem :=
+  match s.splitOn ":" with
+  | ["ib", i] => i.toNat?.map .ib
+  | ["ie", i, ok] => i.toNat?.map (fun i => .ie i (ok = "1"))
+  | ["kill", i] => i.toNat?.map .kill
+  | ["fin", i, r, h] => i.toNat?.map (fun i => .fin i (r = "ok") h)
+  | ["stored", h] => some (.stored h)
+  | ["HANG"] => some .hang
+  | _ => none
+
+def killedOf : List PItem → List Nat
+  | [] => []
+  | .kill i :: r => i :: killedOf r
+  | _ :: r => killedOf r
+
+structure PSt where
+  inIssue : Option Nat := none
+  okBy : List Nat := []            -- surviving processes that have been issued a certificate
+  failed : List Nat := []          -- processes whose own issuer call failed
+  fins : List (Nat × String) := [] -- successful finishes with the certificate they see
+  finished : List Nat := []
+  dead : List Nat := []            -- killed so far
+
+/-- executable specification of the process history (wall-clock order): issuer intervals of
+different processes never overlap (a killed process's interval ends with its death); once a
+surviving process has been issued a certificate nobody enters the issuer again; a process
+fails only if its own issuer call failed; nobody hangs; every surviving process finishes; all
+successful ones end up with the one stored certificate. Overlap / repetition AFTER a holder
+has been killed carries its own reason (`…-after-stale-lock-takeover`): that is the
+documented race of two contenders for one stale lock file (finding D27). -/
+def specProc (k : Nat) (killed : List Nat) : List PItem → PSt → String
+  | [], _ => "bad:no-stored-record"
+  | .hang :: _, _ => "bad:hang"
+  | .ib i :: r, s =>
+    if s.inIssue.isSome then
+      (if s.dead.isEmpty then "bad:overlapping-issuance" else "bad:overlapping-issuance-after-stale-lock-takeover")
+    else if !s.okBy.isEmpty then
+      (if s.dead.isEmpty then "bad:issuance-after-fresh-save" else "bad:repeated-issuance-after-stale-lock-takeover")
+    else specProc k killed r { s with inIssue := some i }
+  | .ie i ok :: r, s =>
+    specProc k killed r { s with inIssue := none
+                                 okBy := if ok && !killed.contains i then i :: s.okBy else s.okBy
+                                 failed := if ok then s.failed else i :: s.failed }
+  | .kill i :: r, s =>
+    specProc k killed r { s with inIssue := if s.inIssue = some i then none else s.inIssue, dead := i :: s.dead }
+  | .fin i ok h :: r, s =>
+    if !ok && !s.failed.contains i then "bad:request-failed-without-issuer-failure"
+    else specProc k killed r { s with fins := if ok then (i, h) :: s.fins else s.fins, finished := i :: s.finished }
+  | .stored h :: _, s =>
+    if (List.range k).any (fun j => !killed.contains (j + 1) && !s.finished.contains (j + 1)) then "bad:request-never-finished"
+    else if !s.fins.isEmpty && h = "-" then "bad:success-but-nothing-stored"
+    else if s.fins.any (fun f => f.2 != h) then "bad:callers-see-different-certificates"
+    else "ok"
+
 def handle (args impl : List String) : String :=
   match args with
+  | ["proc", initial, k, fails, evs] =>
+    let items := (evs.splitOn ",").filterMap parsePItem
+    match k.toNat? with
+    | none => bad
+    | some k =>
+    if items.length ≠ (evs.splitOn ",").length ∨ fails.length ≠ k then bad else
+    let killed := killedOf items
+    let failing : Nat → Bool := fun i => fails.toList[i - 1]? = some '1'
+    -- a killed process that had already been issued a certificate may or may not have saved it
+    let unclear := items.any (fun | .ie i true => killed.contains i | _ => false)
+    let good := (List.range k).any (fun j => !killed.contains (j + 1) && !failing (j + 1))
+    let spec := if impl.isEmpty then "-" else specProc k killed items {}
+    -- the prediction presumes H_lock (one live holder at a time); a history in which the
+    -- stale-lock race (D27) shows says nothing about the model
+    let raced := spec = "bad:overlapping-issuance-after-stale-lock-takeover" ∨ spec = "bad:repeated-issuance-after-stale-lock-takeover"
+    let model := if unclear ∨ raced then "*" else if good then "1" else "0"
+    reply model spec s!"proc:{initial}:k{k}:killed{killed.length}:f{(fails.toList.filter (· = '1')).length}"
   | ["trace", initial, kinds, evs] =>
     let ks := (kinds.splitOn ",").filterMap parseKind
     let items := (evs.splitOn ",").filterMap parseItem
